@@ -99,26 +99,19 @@ impl InnerInMemory {
             records.push(cover);
         }
 
-        let wildcard_match = {
-            let wildcard = qname.clone().into_wildcard();
-            self.records.keys().any(|rr_key| rr_key.name == wildcard)
-        };
+        // The wildcard at the closest encloser exists, also as an empty non-terminal, if an NSEC3
+        // record matches it: its types prove the wildcard no data response (RFC 5155 7.2.5).
+        // Otherwise the record that covers it denies the wildcard (RFC 5155 7.2.2).
+        let wildcard_at_closest_encloser = next_closer_name.into_wildcard();
+        let rr_key = RrKey::new(
+            info.hashed_owner_name(&wildcard_at_closest_encloser, zone)?,
+            RecordType::NSEC3,
+        );
 
-        if wildcard_match {
-            let wildcard_at_closest_encloser = next_closer_name.into_wildcard();
-            let rr_key = RrKey::new(
-                info.hashed_owner_name(&wildcard_at_closest_encloser, zone)?,
-                RecordType::NSEC3,
-            );
-
-            if let Some(record) = self.records.get(&rr_key) {
-                records.push(record.clone());
-            }
-        } else {
-            let wildcard_at_closest_encloser = next_closer_name.into_wildcard();
-            if let Some(cover) = self.find_cover(&wildcard_at_closest_encloser, zone, &info)? {
-                records.push(cover);
-            }
+        if let Some(record) = self.records.get(&rr_key) {
+            records.push(record.clone());
+        } else if let Some(cover) = self.find_cover(&wildcard_at_closest_encloser, zone, &info)? {
+            records.push(cover);
         }
 
         records.sort_by(|a, b| a.name().cmp(b.name()));
